@@ -178,6 +178,18 @@ def build_alphabet(m, ents, rng=None, small=False):
                  ("find", X.meth(L0, "find", s)), ("find", X.meth(A0, "find", s)), ("find", X.meth(P0, "find", s))]
         G.append({"tag": "chain", "chain": True, "es": [[t, e] for t, e in chain]})
         G.append({"tag": "chain", "chain": True, "es": [[t, e] for t, e in reversed(chain)]})
+    # a Sid built from a query that names its keys in ANOTHER order (equal uri, other field order), passed through Sid() and
+    # the finders before / after the canonical Sid object of the same uri
+    dt = m.natural_type(d)
+    if dt:
+        dq = "&".join("%s=%s" % kv for kv in reversed(list(m.fields(dt, d).items())))
+        Q, Cn = X.call("Sid", query=dq), X.sid(d)
+        for chain in ([("Sid", X.call("Sid", Q)), ("Sid", X.call("Sid", Cn)), ("derived", X.attr(X.call("Sid", Cn), "parent")),
+                       ("find", X.meth(A0, "find", Cn)), ("find", X.meth(A0, "find", d))],
+                      [("find", X.meth(L0, "find", Q)), ("derived", X.meth(X.call("Sid", Cn), "get_as", keys[1])),
+                       ("find", X.meth(A0, "find", "/".join(d.split("/")[:-1] + ["*"])))],
+                      [("match", X.meth(X.sid(f), "match", Q)), ("Sid", X.call("Sid", Cn)), ("find", X.meth(X.call("Sid", Cn), "exists"))]):
+            G.append({"tag": "chain", "chain": True, "es": [[t, e] for t, e in chain]})
     # Getters walk the same unfolding as the Finders (and skip the types configured without one): a started or finished
     # get() must leave the later read-only calls on the same search alone
     shallow = ["/".join(segs[:k] + ["*"]) for k in (1, 2, 3)] + ["*", "/".join(segs[:1] + ["*", "*"])]
@@ -345,15 +357,21 @@ class HistoryProfile(StoreProfile):
         held = [F for F in mat["finders"] if "$h" in F]
         F = rng.choice(held) if held and rng.random() < 0.66 else rng.choice(mat["finders"])
         s1 = rng.choice(mat["partial"])
-        how = rng.choice(["take", "find_one", "exists"])
+        how = rng.choice(["take", "take", "find_one", "exists"])
         if how == "take":
-            first = {"op": "take", "e": X.meth(F, "find", s1), "n": rng.choice([0, 1, 1, 2])}
+            first = {"op": "take", "e": X.meth(F, "find", s1), "n": rng.choice([0, 1, 1, 1, 2]), "keep": "ep"}
         else:
             first = {"op": "call", "tag": "find_one" if how == "find_one" else "find", "e": X.meth(F, how, s1)}
         steps = [first]
         if rng.random() < 0.5:
             for s2 in rng.sample(mat["plain"], rng.randint(1, 2)):
                 steps.append({"op": "call", "tag": "find", "e": X.meth(F, "find", s2)})
+            if how == "take" and rng.random() < 0.9:
+                # two live generators on one instance: another search (often the SAME one) is read while the first is
+                # suspended, then the first is read to its end -- together it must have yielded what a fresh find yields
+                if rng.random() < 0.5:
+                    steps.append({"op": "call", "tag": "find", "e": X.meth(F, "find", s1)})
+                steps.append({"op": "resume", "keep": "ep", "e": first["e"]})
             run.probes["episode_abandoned_then_other_searches"] += 1
         else:
             f = mat["f"]
@@ -447,8 +465,23 @@ class HistoryProfile(StoreProfile):
                 self.compare(run, tag, e, obs)
             run.probes["chains"] += 1
         elif op == "take":
-            run.do(X.take(step["e"], step["n"], keep="gen%d" % (len(run.steps) % 3)))
+            keep = step.get("keep") or "gen%d" % (len(run.steps) % 3)
+            got = run.do(X.take(step["e"], step["n"], keep=keep))
+            run.scratch.setdefault("kept", {})[keep] = (json.dumps(step["e"], sort_keys=True), got,
+                                                         run.scratch.get("disk_version", 0), len(run.world_epochs) if hasattr(run, "world_epochs") else run.stats.get("epochs", 0))
             run.probes["partially_consumed_generators"] += 1
+        elif op == "resume":
+            kept = (run.scratch.get("kept") or {}).get(step["keep"])
+            if not kept or kept[0] != json.dumps(step["e"], sort_keys=True) or kept[2] != run.scratch.get("disk_version", 0) \
+                    or kept[3] != run.stats.get("epochs", 0) or not isinstance(kept[1], list):
+                return      # (restarted, data changed or nothing kept: the suspended generator is not comparable)
+            rest = run.do(X.call("list", X.ref(step["keep"])))
+            whole = self.twin(run, X.call("list", step["e"]))
+            if isinstance(rest, list) and isinstance(whole, list):
+                run.stats["compared_calls"] += 1
+                run.check(kept[1] + rest == whole, "C13.suspended_generator_lost_results",
+                          {"call": step["e"], "taken_first": kept[1], "rest_after_other_searches": rest, "fresh": whole})
+                run.probes["suspended_generator_resumed"] += 1
         elif op == "flood":
             # more distinct calls than the caches can hold (capacity knob) / than resolva's lru(128) holds
             es = [X.call("Sid", "hamlet/a/char/n%d_%d" % (step["salt"], j)) for j in range(step["n"])]
